@@ -57,9 +57,11 @@ RULE = ("arrangements = multisets of n protoclusters, each a core of 1..k grid c
         "ring; includes origin-spanning cores/extents, whole-record extents, nesting, identical "
         "coordinates, contig edges), end points on a grid of 8 (n <= 2), 7 (n = 3) or 5 (n = 4) "
         "cells of a line and of a ring, x the defining-gene sharing patterns that the cores "
-        "allow (none, all, every single pair; for n <= 3 every subset of pairs); every arrangement "
+        "allow (for n <= 3 every subset of pairs; for n = 4 none, all, every 3-pair chain over the 4 "
+        "protoclusters, and every single pair when at most 3 pairs are possible; n = 4 uses sets of "
+        "distinct shapes); every arrangement "
         "is supplied in one order per distinct sorted protocluster list that add_protocluster can "
-        "build from it (ties between identical extents), at least the given order and its reverse, "
+        "build from it (ties between identical extents) "
         "and in every order when the ordering is inconsistent (whole-record + origin-spanning extent); non-trivial = >= 2 protoclusters related by at least one of the three "
         "relations; distinct = distinct (arrangement, sharing).")
 EXHAUSTIVE = {"quick": True, "thorough": False}
@@ -150,7 +152,13 @@ def _sharing_patterns(pairs: Sequence[Tuple[int, int, int]], count: int) -> List
         for size in range(len(plain) + 1):
             patterns.extend([list(c) for c in itertools.combinations(plain, size)])
         return patterns
-    patterns = [[], plain] + [[pair] for pair in plain]
+    patterns = [[], plain]
+    if len(plain) <= 3:
+        patterns += [[pair] for pair in plain]
+    # chains: three pairs that tie four protoclusters together without any further pair
+    for trio in itertools.combinations(plain, 3):
+        if len({i for pair in trio for i in pair}) == 4:
+            patterns.append(list(trio))
     unique = []
     for pattern in patterns:
         if pattern not in unique:
@@ -162,7 +170,9 @@ def _cases_of_plan(plan: Tuple[int, bool, int, Sequence[int], Sequence[int]]) ->
     cells, circular, count, core_sizes, neighbourhoods = plan
     length = cells * CELL
     shapes = _shapes(cells, circular, core_sizes, neighbourhoods)
-    for combo in itertools.combinations_with_replacement(shapes, count):
+    # n <= 3: multisets (identical protoclusters included); n >= 4: distinct shapes
+    chooser = itertools.combinations_with_replacement if count <= 3 else itertools.combinations
+    for combo in chooser(shapes, count):
         protos = [[list(core), list(extent)] for core, extent in combo]
         for share in _sharing_patterns(_sharable_pairs(protos, length), count):
             yield {"L": length, "circ": circular, "protos": protos, "share": share}
@@ -216,8 +226,7 @@ def _orders(case: Dict[str, Any]) -> List[Tuple[int, ...]]:
     ones it ties with, so two orders of supply can only lead to different lists when extents tie
     (identical extents) or when the ordering itself is inconsistent (a whole-record extent
     contains an origin-spanning one yet sorts after it).  One order per distinct resulting list
-    is run (always including the given order and its reverse); with an inconsistent ordering,
-    every permutation."""
+    is run; with an inconsistent ordering, every permutation."""
     count = len(case["protos"])
     length = case["L"]
     extents = [tuple(extent) for _, extent in case["protos"]]
@@ -242,10 +251,7 @@ def _orders(case: Dict[str, Any]) -> List[Tuple[int, ...]]:
                 position += 1
             listed.insert(position, index)
         chosen.setdefault(tuple(listed), order)
-    orders = list(chosen.values())
-    if len(orders) == 1:
-        orders.append(identity[::-1])
-    return orders
+    return list(chosen.values())
 
 
 def _build(case: Dict[str, Any], order: Sequence[int]) -> Tuple[Any, List[Any]]:
@@ -506,4 +512,220 @@ def replay(case: Dict[str, Any]) -> List[str]:
     return [f"{clause}: {detail}" for clause, ok, detail in results if not ok]
 
 
-FINDING_CLASSES: Dict[str, Any] = {}
+
+# ---------------------------------------------------------------------------------------------
+# known findings (classes of inputs)
+# ---------------------------------------------------------------------------------------------
+def _plain(clause: str) -> str:
+    return clause.split(" [")[0]
+
+
+def _declared_sharing(case: Dict[str, Any]) -> List[Tuple[int, int]]:
+    return [(min(i, j), max(i, j)) for i, j in case["share"]]
+
+
+def _union(masks: Sequence[int], members: Iterable[int]) -> int:
+    out = 0
+    for i in members:
+        out |= masks[i]
+    return out
+
+
+def _group_levels(case: Dict[str, Any]) -> Tuple["Expectation", List[Tuple[str, Set[int]]]]:
+    """The groups the statement asks for, strongest kind first: ("H"|"I"|"N", members)."""
+    expectation = Expectation(case, _declared_sharing(case))
+    groups: List[Tuple[str, Set[int]]] = [("H", must | may) for must, may in expectation.hybrids]
+    groups += [("I", set(g)) for g in expectation.core_groups]
+    groups += [("N", set(g)) for g in expectation.extent_groups]
+    return expectation, groups
+
+
+RANK = {"H": 0, "I": 1, "N": 2}
+
+
+def _is_promotion(clause: str, case: Dict[str, Any]) -> bool:
+    """F1: a group of a weaker kind (interleaved / neighbouring) has more members than, but
+    exactly the span of, a group of a stronger kind it contains.  The pinned code keys its
+    de-duplication on coordinates only: it folds the extra members into the stronger candidate
+    (keeping that kind) instead of keeping both candidates."""
+    clause = _plain(clause)
+    if clause not in ("hybrid-groups-exact", "interleaved-groups-exact", "neighbouring-groups-exact"):
+        return False
+    expectation, groups = _group_levels(case)
+    for kind, members in groups:
+        for other_kind, other in groups:
+            if RANK[other_kind] < RANK[kind] and other < members and \
+                    _union(expectation.extents, other) == _union(expectation.extents, members):
+                if clause == "hybrid-groups-exact" and other_kind == "H":
+                    return True
+                if clause == "interleaved-groups-exact" and "I" in (kind, other_kind):
+                    return True
+                if clause == "neighbouring-groups-exact" and kind == "N":
+                    return True
+    return False
+
+
+def _single_pass_merge_fails(groups: Sequence[Set[int]], min_start: Sequence[int]) -> bool:
+    """Model of the pinned `_merge_sets`: the groups are ordered by the smallest location start
+    of their members and merged in ONE pass (a group absorbed by an earlier one is emptied and
+    cannot pull in the groups it overlaps).  True if, for some order of the groups with equal
+    keys, groups that share a member are left unmerged."""
+    keyed = sorted(groups, key=lambda group: min(min_start[i] for i in group))
+    blocks: List[List[Set[int]]] = []
+    for _, block in itertools.groupby(keyed, key=lambda group: min(min_start[i] for i in group)):
+        blocks.append(list(block))
+    if sum(len(block) for block in blocks) > 8:
+        blocks = [[group] for block in blocks for group in block]        # keep it cheap
+    for choice in itertools.product(*[itertools.permutations(block) for block in blocks]):
+        ordered = [set(group) for block in choice for group in block]
+        for index, first in enumerate(ordered[:-1]):
+            if not first:
+                continue
+            for second in ordered[index + 1:]:
+                if not first.isdisjoint(second):
+                    first.update(second)
+                    second.clear()
+        seen: Set[int] = set()
+        for group in ordered:
+            if seen & group:
+                return True
+            seen |= group
+    return False
+
+
+def _strong_nodes(expectation: "Expectation") -> List[Set[int]]:
+    """The units the later passes work with: every core-overlap group (it becomes a hybrid or an
+    interleaved candidate) and every remaining protocluster on its own."""
+    nodes = [set(group) for group in expectation.core_groups]
+    absorbed = {i for group in nodes for i in group}
+    return nodes + [{i} for i in range(expectation.count) if i not in absorbed]
+
+
+def _is_merge(clause: str, case: Dict[str, Any]) -> bool:
+    """F2: the single-pass `_merge_sets` leaves groups with a common member unmerged: sharing
+    pairs (hybrids), core-overlap pairs with hybrids as units (interleaved), extent-overlap pairs
+    of candidates/singles (neighbouring); later kinds inherit the split groups."""
+    clause = _plain(clause)
+    if clause not in ("hybrid-groups-exact", "interleaved-groups-exact", "neighbouring-groups-exact"):
+        return False
+    expectation, _ = _group_levels(case)
+    count = expectation.count
+    min_start = [0 if spans_origin(extent) else extent[0] for _, extent in case["protos"]]
+    share = [set(pair) for pair in _declared_sharing(case)]
+    if len(share) >= 3 and _single_pass_merge_fails(share, min_start):
+        return True
+    if clause == "hybrid-groups-exact":
+        return False
+    unit = {}
+    for must, may in expectation.hybrids:
+        for i in must:
+            unit[i] = frozenset(must)
+    cores = [set(unit.get(i, {i})) | set(unit.get(j, {j})) for i in range(count) for j in range(i + 1, count)
+             if expectation.cores[i] & expectation.cores[j] and unit.get(i, i) != unit.get(j, j)]
+    if len(cores) >= 3 and _single_pass_merge_fails(cores, min_start):
+        return True
+    if clause == "interleaved-groups-exact":
+        return False
+    nodes = _strong_nodes(expectation)
+    masks = [_union(expectation.extents, node) for node in nodes]
+    extents = [nodes[a] | nodes[b] for a in range(len(nodes)) for b in range(a + 1, len(nodes))
+               if masks[a] & masks[b]]
+    return len(extents) >= 3 and _single_pass_merge_fails(extents, min_start)
+
+
+def _is_bridging(clause: str, case: Dict[str, Any]) -> bool:
+    """F3: neighbouring groups: a protocluster outside every hybrid/interleaved candidate whose
+    extent overlaps such a candidate is taken out of the `unassigned` set, so its overlap with
+    another such protocluster is never examined; the extent-overlap group falls apart when that
+    overlap is its only link."""
+    if _plain(clause) != "neighbouring-groups-exact":
+        return False
+    expectation, _ = _group_levels(case)
+    nodes = _strong_nodes(expectation)
+    strong = [len(node) > 1 for node in nodes]
+    masks = [_union(expectation.extents, node) for node in nodes]
+    touches = {a for a in range(len(nodes)) if not strong[a]
+               and any(strong[b] and masks[a] & masks[b] for b in range(len(nodes)))}
+    edges = []
+    for a in range(len(nodes)):
+        for b in range(a + 1, len(nodes)):
+            if masks[a] & masks[b] and (strong[a] or strong[b] or not (a in touches or b in touches)):
+                edges.append((a, b))
+    found = sorted(sorted(set().union(*[nodes[i] for i in group]))
+                   for group in components(len(nodes), edges))
+    found = [group for group in found if len(group) > 1]
+    return found != sorted(sorted(group) for group in expectation.extent_groups)
+
+
+def _pinned_span(arcs: Sequence[Sequence[int]], length: int) -> int:
+    """Set of bases the PINNED connect_locations returns for chained arcs on a ring when one of
+    them spans the origin: the other arcs go to a pre-origin chunk (start >= length - end) or a
+    post-origin chunk; if the hulls of the two chunks overlap the whole record is returned."""
+    pre_start, post_end = length, 0
+    for start, end in arcs:
+        if start >= end:
+            pre_start, post_end = min(pre_start, start), max(post_end, end)
+        elif start < length - end:
+            post_end = max(post_end, end)
+        else:
+            pre_start = min(pre_start, start)
+    if pre_start < post_end or pre_start == 0 or post_end == length:
+        return (1 << length) - 1
+    return arc_mask([pre_start, post_end], length)
+
+
+def _over_covered(case: Dict[str, Any]) -> bool:
+    """Ring; some chained set of extents containing an origin-spanning one for which the pinned
+    connect_locations returns the whole record although the span is smaller."""
+    if not case["circ"]:
+        return False
+    length = case["L"]
+    extents = [extent for _, extent in case["protos"]]
+    masks = [arc_mask(extent, length) for extent in extents]
+    count = len(extents)
+    for size in range(2, count + 1):
+        for subset in itertools.combinations(range(count), size):
+            if not any(spans_origin(extents[i]) for i in subset):
+                continue
+            pairs = [(a, b) for a in range(size) for b in range(a + 1, size)
+                     if masks[subset[a]] & masks[subset[b]]]
+            if len(components(size, pairs)) != 1:
+                continue
+            if _pinned_span([extents[i] for i in subset], length) != _union(masks, subset):
+                return True
+    return False
+
+
+def _is_over_cover(clause: str, case: Dict[str, Any]) -> bool:
+    """F4: a candidate on a ring is given the whole record as location although the span of its
+    members is smaller (connect_locations, see C06-F2); the inflated [0:L) location also collides
+    with other candidates in the coordinate-keyed de-duplication."""
+    return _plain(clause) in CLAUSES and _over_covered(case)
+
+
+def _is_single_key(clause: str, case: Dict[str, Any]) -> bool:
+    """F5: singles of an origin-spanning protocluster: the pinned code looks the parent candidate
+    up under (location.start, location.end) = (0, L) for such a protocluster, so a single with
+    the coordinates of its parent candidate is kept, and a single is dropped whenever a candidate
+    covering the whole record contains the protocluster."""
+    if _plain(clause) != "singles-exact" or not case["circ"]:
+        return False
+    expectation, groups = _group_levels(case)
+    full = (1 << case["L"]) - 1
+    absorbed = {i for group in expectation.core_groups for i in group}
+    for index, (_, extent) in enumerate(case["protos"]):
+        if index in absorbed or not spans_origin(extent):
+            continue
+        for _, members in groups:
+            if index in members and _union(expectation.extents, members) in (expectation.extents[index], full):
+                return True
+    return False
+
+
+FINDING_CLASSES = {
+    "C05-F1": _is_promotion,
+    "C05-F2": _is_merge,
+    "C05-F3": _is_bridging,
+    "C05-F4": _is_over_cover,
+    "C05-F5": _is_single_key,
+}
